@@ -29,6 +29,9 @@ inductive CType
   | otherobj    -- the other server's object type
   | other       -- some other well-formed media type
   | bad         -- does not parse as a media type
+  | objbadparam -- the server's object type followed by a malformed parameter (`text/calendar; charset`):
+                --   `mime.ParseMediaType` returns the type TOGETHER WITH an error
+  | xmlbadparam -- application/xml followed by a malformed parameter: `isContentXML` ignores the error
 deriving DecidableEq, Repr
 
 inductive Body
@@ -71,6 +74,7 @@ deriving DecidableEq, Repr
 def isXml : CType → Bool
   | .xml => true
   | .textxml => true
+  | .xmlbadparam => true
   | _ => false
 
 inductive XmlResult | ok | noForm | badRt | err
